@@ -74,10 +74,15 @@ impl AgonesDiscoveryAdapter {
                 };
 
                 // map to target
+                let name = server.metadata.name.clone();
                 let target: Target = match server.try_into() {
                     Ok(target) => target,
                     Err(err) => {
                         warn!(err = ?err, "error while converting game server to target");
+                        // a server that can no longer be converted must not stay offered
+                        if let Some(name) = name {
+                            _inner.write().await.retain(|i| i.identifier != name);
+                        }
                         continue;
                     }
                 };
